@@ -256,3 +256,9 @@
         }
         assert(spec_invntt(a) =~= spec_invntt(b));
     }
+    pub open spec fn poly_is(r: [i32; 256], s: Seq<int>) -> bool { forall|n: int| 0 <= n < 256 ==> #[trigger] r[n] as int == s[n] }
+    pub proof fn lemma_invntt_cong_all(b: Seq<int>)
+        ensures forall|a: Seq<int>| seq_cong(a, b) ==> #[trigger] spec_invntt(a) == spec_invntt(b),
+    {
+        assert forall|a: Seq<int>| seq_cong(a, b) implies #[trigger] spec_invntt(a) == spec_invntt(b) by { lemma_invntt_cong(a, b); }
+    }
